@@ -1,7 +1,9 @@
 FWD = TOK + ["src/HttpHeader.cc", "src/HttpHeaderTools.cc", "src/HeaderMangling.cc", "src/http/RegisteredHeaders.cc", "src/http/ContentLengthInterpreter.cc",
              "src/http/one/Parser.cc", "src/String.cc", "src/StrList.cc", "src/MemBuf.cc", "src/mime_header.cc", "src/SquidConfig.cc",
              "src/ip/Address.cc", "src/helper/ChildConfig.cc", "lib/util.cc", "compat/xstring.cc",
-             "src/HttpRequest.cc", "src/HttpHdrCc.cc", "src/http/RequestMethod.cc", "src/http/MethodType.cc", "src/refresh.cc", "src/globals.cc", "src/anyp/Uri.cc", "src/anyp/UriScheme.cc"]
+             "src/HttpRequest.cc", "src/HttpHdrCc.cc", "src/http/RequestMethod.cc", "src/http/MethodType.cc", "src/refresh.cc", "src/globals.cc", "src/anyp/Uri.cc", "src/anyp/UriScheme.cc",
+             # second harness TU (the real client_side_reply.cc is #included there) and what clientReplyContext::buildReplyHeader() reaches
+             "verif:harness/C04_reply.cc", "src/HttpReply.cc", "src/HttpBody.cc", "src/LogTags.cc", "src/http/StatusLine.cc", "src/http/StatusCode.cc", "src/cbdata.cc"]
 # xstrdup is an engine model (engine/models/libc.c); the real compat/xstring.cc is linked for xstrncpy with its xstrdup renamed away
 FWD_FLAGS = {"compat/xstring.cc": ["-Dxstrdup=vf_unused_squid_xstrdup"]}
 _e = lambda n, b, r, **kw: dict(name=n, bounds=b, reach=list(r), **dict(dict(sample_every=61, max_samples=6), **kw))
@@ -9,7 +11,7 @@ _b = "; b = any byte except NUL, CR, LF, DQUOTE; n = any tchar"
 _req = ("; client block: User-Agent, Connection, the extension field X, Keep-Alive, TE, Trailer, Upgrade, Proxy-Connection, Proxy-Authenticate, Proxy-Authorization, "
         "'Transfer-Encoding: gzip, chunked', [second Connection,] Accept, X-Keep; direct connection to the origin, flags.keepalive and flags.chunked_request symbolic")
 _rep = ("; origin block: Server, Connection, the extension field X, Keep-Alive, TE, Trailer, Upgrade, Proxy-Connection, Proxy-Authenticate, "
-        "'Transfer-Encoding: chunked', [second Connection,] Accept, X-Keep")
+        "'Transfer-Encoding: gzip, chunked', [second Connection,] Accept, X-Keep")
 def _fams(th):
     k = "b b b b" if th else "b b b"
     x2 = "'X-e'" if th else "'Xe'"
@@ -28,6 +30,9 @@ def _fams(th):
         _e("c04_req_flags", "Connection = ' xE , close', X = 'Xe'; the client block above; Http::StateFlags symbolic: keepalive, peering, tunneling, toOrigin, chunked_request"
            + (", only_if_cached, front_end_https 0..2" if th else "") + " (tunneling => peering and toOrigin; no peer => toOrigin); cache_peer login in {none, PASS, PASSTHRU, "
            "PROXYPASS, user:pw, *:pw} (none without a peer)", ("listed-dropped", "to-origin", "peer-credentials-passed", "peer-no-credentials"), sample_every=5, max_samples=14),
+        _e("c04_rep_build", "the real clientReplyContext::buildReplyHeader() on a cache miss being relayed: " + (" | ".join((any_, two, tail)) if th else tail) + _rep +
+           ", Date; reply status 200; request cache_peer login in " + ("{none, PASS, PASSTHRU, PROXYPASS, user:pw}" if th else "{none, PASS, PASSTHRU}") +
+           ", flags.proxyKeepalive symbolic, client HTTP version in {1.0, 1.1}" + _b, ("listed-dropped", "unlisted-kept", "from-origin", "peer-auth-passed")),
         _e("c04_rep_lists", " | ".join((any_, two, tail, head, mid, reg, name)) + _rep + _b, ("listed-dropped", "unlisted-kept")),
     ]
 SPEC = dict(
@@ -40,17 +45,26 @@ SPEC = dict(
                "value (RFC 9110 list syntax: commas, OWS, empty elements, any case), none of Keep-Alive/TE/Trailer/Upgrade/Proxy-Connection/Proxy-Authenticate, exactly one "
                "Connection field which is Squid's own keep-alive/close, Transfer-Encoding only as Squid's own single 'chunked' and only when Squid chunks, and no "
                "Proxy-Authorization (nor the client's proxy credentials in any field, unless cache_peer login=PROXYPASS) when the next hop is an origin server; "
-               "(reply) HttpHeader::removeHopByHopEntries()/removeConnectionHeaderEntries()/strListIsMember() leave no field named in a received Connection value and none "
-               "of Connection/Keep-Alive/TE/Trailer/Upgrade/Proxy-Connection/Transfer-Encoding, in the entries and in the presence mask; "
-               "gap: the rest of clientReplyContext::buildReplyHeader() (it removes Proxy-Authenticate itself unless login=PASS/PASSTHRU, and adds Squid's own Connection/"
-               "Transfer-Encoding), HttpStateData::forwardUpgrade() with http_upgrade_request_protocols configured, header_access/header_add rules, "
-               "FTP/tunnel/ICAP paths, that every relayed message goes through these two functions",
+               "(reply) the real clientReplyContext::buildReplyHeader() for a cache miss being relayed (Proxy-Authenticate removal unless the request goes through a cache_peer "
+               "with login=PASS/PASSTHRU, HttpHeader::removeHopByHopEntries(), removeIrrelevantContentLength(), Cache-Status, keep-alive decision, Squid's own "
+               "Transfer-Encoding/Via/Connection, httpHdrMangleList()) sends the client no field named in a received Connection value, none of Keep-Alive/TE/Trailer/Upgrade/"
+               "Proxy-Connection, Proxy-Authenticate only in the login=PASS/PASSTHRU case, exactly one Connection which is Squid's own keep-alive/close, and Transfer-Encoding "
+               "only as Squid's own single 'chunked' and only to an HTTP/1.1 client; HttpHeader::removeHopByHopEntries() alone (as Http::One::Server uses it for 1xx "
+               "control messages) leaves no such field in the entries and in the presence mask; "
+               "gap: cache hits (Age/Date rewriting), WWW-Authenticate connection-auth filtering, authentication info headers, reply_header_access/reply_header_add rules, "
+               "HttpStateData::forwardUpgrade() with http_upgrade_request_protocols configured and the 101 path, request_header_access/request_header_add rules, "
+               "FTP/tunnel/ICAP paths, that every relayed message goes through these functions",
     entries=dict(quick=_fams(False), thorough=_fams(True)),
     timeout=dict(quick=900, thorough=3000),
     stubs=["HttpRequest is zeroed raw memory of the real size (not constructed); set directly: header (placement-new HttpHeader(hoRequest), filled by the real "
            "HttpHeader::parse()), method POST, http_ver 1.1, lastmod/ims -1, rangeOffsetLimit 0 (range_offset_limit unset), url.absolute_ (cached absolute URI), "
            "peer_domain 'o.example' (supplies Host), client_addr no-addr, peer_login; CachePeer is zeroed raw memory (only tested for null); StoreEntry null; ALE null",
            "src/http.cc is #included into the harness TU (static functions); everything of it that is not reached stays undefined",
+           "src/client_side_reply.cc is #included into a second harness TU (harness/C04_reply.cc); clientReplyContext, ClientHttpRequest, AccessLogEntry, HttpRequest and "
+           "HttpReply are zeroed raw memory of the real size (HttpRequest/HttpReply with their real vtable pointers); set directly: reply header (placement-new, filled by "
+           "the real HttpHeader::parse() with HttpReply::configureContentLengthInterpreter()), status line 1.1/200, content_length, keep_alive; request method GET, http_ver, "
+           "peer_login, flags.proxyKeepalive; al->cache.code LOG_TCP_MISS; no StoreEntry, no ConnStateData, no auth_user_request; uniqueHostname() returns 'squid.example', "
+           "fdUsageHigh() returns 0, Time::FormatRfc1123() returns a fixed date text (Squid's own Date field, added when the origin's was named in Connection); client_persistent_connections and error_pconns on",
            "StatHist::enumInit/count are no-ops (per-header statistics histograms; StatHist.cc not linked)",
            "bitcode only: nettle base64_encode_* replaced by an 'A'-emitting stand-in (encodes Squid's own cache_peer login credentials; text irrelevant)",
            "SquidConfig Config is the real global, zero-initialised, with via on, cache_miss_revalidate on, redir_rewrites_host on, relaxed_header_parser on; "
